@@ -1,5 +1,6 @@
 import Solvor.Common.Proto
 import Solvor.Lp.Model
+import Solvor.Lp.Milp
 /-! Lp: line-protocol handler.
 
 request `["lp", c, A, b, minimize, eps, maxIter, tol, vtol, lpImpl, ipmImpl, ipmTolFeas, ipmTolObj, ipmResid]`
@@ -73,9 +74,59 @@ def handleLp (args : List Val) : Option String := do
     | some i => chk i itf ito (fun x => x.length == U.n && chkResidual U ires x)
   pure (Val.arr [model, truth, lpC, ipC]).render
 
+/-! request `["milp", c, A, b, ints, minimize, eps, tolObj, maxBox, impls]`
+  impls : list of `[status, x | null, obj | null, sols]` (results of solve_milp under several configurations)
+reply `[relax, oracle, checks]`
+  relax  = `[verdict, certOk]`                 exact simplex on the LP relaxation, certificate-checked
+  oracle = `[kind, value | null, point | null, boxSize]`
+           kind ∈ OPTIMAL / INFEASIBLE / UNBOUNDED (all certified: `oracleOk` or the relaxation's Farkas
+           vector), NOBOX (an integer variable is unbounded on the relaxation), TOOBIG, FAIL
+           value in the caller's sense
+  checks = per impl result `[isFeasible x, |c·x−obj| ≤ tolObj, [isFeasible s for s in sols]]` (`null` when no x)
+-/
+def handleMilp (args : List Val) : Option String := do
+  let [c, A, b, ints, mn, eps, tolObj, maxBox, impls] := args | none
+  let c ← c.toRats?; let A ← A.toRatss?; let b ← b.toRats?; let ints ← ints.toNats?
+  let mn ← mn.toBool?; let eps ← eps.toRat?; let tolObj ← tolObj.toRat?; let maxBox ← maxBox.toNat?
+  let impls ← impls.toArr?
+  -- hypotheses of `milpOracle_correct`: as many rows as right-hand sides, integer indices in range
+  if A.length != b.length || ints.any (fun j => j ≥ c.length) then none
+  let P := mkLP c A b mn
+  let U : LP := ⟨A, b, c⟩
+  let r := exactSolve P
+  let rOk := certifies P r
+  let relax := Val.arr [.str r.status.name, .bool rOk]
+  let sense (v : Rat) : Rat := if mn then v else -v
+  let oracle : Val :=
+    if rOk && r.status == .INFEASIBLE then .arr [.str "INFEASIBLE", .null, .null, .int 0]
+    else if !rOk then .arr [.str "FAIL", .null, .null, .int 0]
+    else match findBox P ints with
+      | none => .arr [.str "NOBOX", .null, .null, .int 0]
+      | some (ub, ys) =>
+        let sz := boxSize ub
+        if sz > maxBox then .arr [.str "TOOBIG", .null, .null, .int sz]
+        else if !oracleOk exactSolve P ints ub ys then .arr [.str "FAIL", .null, .null, .int sz]
+        else if oracleUnb exactSolve P ints ub then .arr [.str "UNBOUNDED", .null, .null, .int sz]
+        else match oracleBest exactSolve P ints ub with
+          | none => .arr [.str "INFEASIBLE", .null, .null, .int sz]
+          | some (v, x) => .arr [.str "OPTIMAL", .ofRat (sense v), .ofRats x, .int sz]
+  let feas (x : Vec) : Bool := x.length == U.n && isFeasible U ints eps x
+  let checks ← impls.mapM fun (v : Val) => do
+    let [_, x, o, sols] ← v.toArr? | none
+    let x ← x.toOpt? Val.toRats?
+    let o ← o.toOpt? Val.toRat?
+    let sols ← sols.toRatss?
+    pure <| match x with
+      | none => Val.arr [.null, .null, .arr (sols.map fun s => .bool (feas s))]
+      | some x =>
+        let objOk := match o with | some ob => chkObjAt U tolObj x ob | none => false
+        Val.arr [.bool (feas x), .bool objOk, .arr (sols.map fun s => .bool (feas s))]
+  pure (Val.arr [relax, oracle, .arr checks]).render
+
 def handle (line : String) : String :=
   match request line with
   | some ("lp", args) => (handleLp args).getD (err "bad arguments")
+  | some ("milp", args) => (handleMilp args).getD (err "bad arguments")
   | _ => err "bad request"
 
 end Solvor.Lp
